@@ -80,7 +80,7 @@ fn print_one(
         var,
         options_allowed: context.options_allowed,
     };
-    let separator = if name.starts_with('-') { "-- " } else { "" };
+    let separator = if name.starts_with(['-', '+']) { "-- " } else { "" };
     let quoted_name = yash_quote::quoted(name);
     match &var.value {
         Some(value @ Value::Scalar(_)) => writeln!(
